@@ -121,7 +121,63 @@ def fn_paths(m, name, loop_bound=1):
 
 def fn_segments(m, name):
     fn = m.fn(name)
-    return fn, [(s, p) for s, p in paths.enumerate_segments(fn, m, call_effects=EFFECTS) if p.end != "unreachable"]
+    segs = [(s, p) for s, p in paths.enumerate_segments(fn, m, call_effects=EFFECTS) if p.end != "unreachable"]
+    _rematerialise_cached_now(m, fn, segs)
+    return fn, segs
+
+
+def _rematerialise_cached_now(m, fn, segs):
+    """`uint32_t now = kernel.now;` before a loop: inside the loop's segments the local is a symbol.  kernel.now is written by
+    fibre_scheduler_next alone (checked here: no store to it in this function, and this function makes no indirect call, so no
+    fibre body - which could re-enter the scheduler - runs underneath it): the cached copy IS kernel.now for the whole function,
+    and is put back as the load so that the time rules read it as such."""
+    from .. import flow
+    try:
+        K = Kernel(m)
+    except AnalysisError:
+        return
+    nowp = K.kptr("now")
+    off = K.members["now"][0]
+    cached = set()
+    for i in fn.insts():
+        if i.op == "call" and i.callee is None:
+            return
+        if i.op == "store":
+            try:
+                pp = flow.resolve_ptr(i.ops[1], m)
+                if pp.root.k == "global" and pp.root.name == "kernel" and not pp.var and pp.off == off:
+                    return
+            except AnalysisError:
+                pass
+    for i in fn.insts():
+        if i.op == "load" and i.name:
+            try:
+                pp = flow.resolve_ptr(i.ops[0], m)
+            except AnalysisError:
+                continue
+            if pp.root.k == "global" and pp.root.name == "kernel" and not pp.var and pp.off == off:
+                cached.add(("sym", i.name))
+    if not cached:
+        return
+    ld = ("ld", nowp, 4, (0, 0))
+
+    def sub(e):
+        if isinstance(e, tuple):
+            if e in cached:
+                return ld
+            return tuple(sub(x) if isinstance(x, tuple) else x for x in e)
+        return e
+    for s_, p in segs:
+        if not any(paths.contains(c, lambda x: x in cached) for c, t, i in p.conds):
+            continue
+        p.conds = [(sub(c), t, i) for c, t, i in p.conds]
+        for e in p.events:
+            for attr in ("ptr", "val", "res", "extra"):
+                v = getattr(e, attr, None)
+                if isinstance(v, tuple):
+                    setattr(e, attr, sub(v))
+            if getattr(e, "args", None):
+                e.args = [sub(a) if isinstance(a, tuple) else a for a in e.args]
 
 
 def cond_truth_of_call(p, callee, argpred=None):
